@@ -135,7 +135,15 @@ class AlgDomain(EventsMixin, Domain):
       return UNKNOWN
     if isinstance(op, ast.MatMult):
       return self._dot(a, b)
+    if isinstance(op, (ast.BitOr, ast.BitAnd, ast.BitXor)) and \
+            self._is_bool(a) and self._is_bool(b):
+      items = sorted([a, b], key=repr)
+      return ('boolop', type(op).__name__, items[0], items[1])
     return UNKNOWN
+
+  def _is_bool(self, d):
+    return isinstance(d, Cmp) or (isinstance(d, tuple) and d and
+                                  d[0] in ('boolop', 'isclose', 'notb'))
 
   def _mul(self, a, b):
     na, nb = self._num(a), self._num(b)
@@ -148,7 +156,7 @@ class AlgDomain(EventsMixin, Domain):
         return a.scale(nb)
       if isinstance(a, Lin):
         return a.scale(nb)
-      if isinstance(a, Cmp):
+      if self._is_bool(a):
         return Lin({('ind', a): nb})
       if isinstance(a, Vec):
         return Vec(SExpr(a.sx.coeff * nb, a.sx.factors), a.orient)
@@ -213,6 +221,12 @@ class AlgDomain(EventsMixin, Domain):
       return self._mul(v.d, Lin({}, -1))
     if isinstance(op, ast.UAdd):
       return v.d
+    if isinstance(op, ast.Invert) and self._is_bool(v.d):
+      if isinstance(v.d, Cmp):
+        neg = {'<': '>=', '<=': '>', '>': '<=', '>=': '<', '==': '!=',
+               '!=': '=='}[v.d.op]
+        return Cmp(v.d.lin, neg)
+      return ('notb', v.d)
     return UNKNOWN
 
   def compare(self, ops, vals, node, st):
@@ -588,6 +602,26 @@ class AlgDomain(EventsMixin, Domain):
       return Poly({(A('eye(%s,%s)' % (ast.unparse(node.args[0]),
                                       ast.unparse(node.args[1])), 'mat'),):
                    Fraction(1)}, 'mat')
+    return UNKNOWN
+
+  def x_numpy_isclose(self, args, kwargs, node, st):
+    if len(args) >= 2 and isinstance(args[0].d, Lin) and \
+            isinstance(args[1].d, Lin):
+      return ('isclose', Cmp(args[0].d.add(args[1].d, -1), '=='))
+    return UNKNOWN
+
+  def x_numpy_logical_or(self, args, kwargs, node, st):
+    if len(args) == 2 and self._is_bool(args[0].d) and \
+            self._is_bool(args[1].d):
+      items = sorted([args[0].d, args[1].d], key=repr)
+      return ('boolop', 'BitOr', items[0], items[1])
+    return UNKNOWN
+
+  def x_numpy_logical_and(self, args, kwargs, node, st):
+    if len(args) == 2 and self._is_bool(args[0].d) and \
+            self._is_bool(args[1].d):
+      items = sorted([args[0].d, args[1].d], key=repr)
+      return ('boolop', 'BitAnd', items[0], items[1])
     return UNKNOWN
 
   def x_numpy_allclose(self, args, kwargs, node, st):
